@@ -45,4 +45,8 @@ fn run(e: &Engine) {
     e.require_fraction("two failure classes and a queue read", "unbounded queue", 0.5);
     // long queues: more than 255 unread items, counts and reads around the 256 / 512 marks
     e.proptest("long-queue-histories", e.tier.pick(160, 4_000), long_queue_history, check);
+    // queues beyond 16-bit counts: 65540 .. 131080 unread items, counts and status byte at the 2^16 (2^17) marks
+    if !cfg!(debug_assertions) {
+        e.fixed("queue-beyond-65535-items", huge_cases(e.tier == crate::engine::Tier::Thorough), |h: &Huge, obs: &Obs| check(&huge_queue(h), obs));
+    }
 }
